@@ -66,7 +66,7 @@ func (s *Sim) Dump() []string {
 			continue
 		}
 		mod, key := string(k[:i]), k[i+1:]
-		out = append(out, fmt.Sprintf("S vpn %s %s %s", mod, hx(key), s.decodeVPN(mod, key, v)))
+		out = append(out, fmt.Sprintf("S vpn %s %s %s", mod, hx(key), s.safeDecodeVPN(mod, key, v)))
 	}
 	it.Close()
 
@@ -145,6 +145,18 @@ func b01(b bool) string {
 		return "1"
 	}
 	return "0"
+}
+
+// safeDecodeVPN is decodeVPN with a panic of the repository's own decoding code (an address text that does not
+// parse, a value that is not the expected message) rendered as `undecodable:<hex>` instead of crashing the harness:
+// the line then differs from the model's and is reported as a state disagreement.
+func (s *Sim) safeDecodeVPN(mod string, key, v []byte) (res string) {
+	defer func() {
+		if x := recover(); x != nil {
+			res = "undecodable:" + hx(v)
+		}
+	}()
+	return s.decodeVPN(mod, key, v)
 }
 
 func (s *Sim) decodeVPN(mod string, key, v []byte) string {
